@@ -311,4 +311,102 @@ class WriterPart:
         ctx.nontrivial(nt)
 
 
-PARTS = [CorePart(), DeepPart(), WriterPart()]
+class CliPart:
+    """run_genotype on generated BAM/VCF: GT, GL and GQ of the output VCF must agree with each other"""
+    name = "cli"
+    budget = {"quick": 640, "thorough": 12000}
+
+    def strategy(self, tier):
+        from vlib import pipeline as P
+        from props.c03_components import gen_trio_case
+
+        @st.composite
+        def case(draw):
+            ped = draw(st.integers(0, 2)) == 0
+            if ped:
+                c = gen_trio_case(draw, depth=(1, 6), read_len=(60, 250), paired_share=10, clip_share=0, eqx_share=0, ncontigs=(1, 1),
+                                  length=(300, 700), kinds=("snv", "snv", "ins", "del"))
+            else:
+                c = P.gen_case(draw, nsamples=(1, 2), ncontigs=(1, 2), length=(300, 700), depth=(1, 8), read_len=(60, 250), paired_share=10,
+                               clip_share=0, eqx_share=0, kinds=("snv", "snv", "ins", "del"))
+            c["ped"] = ped
+            c["noise"] = draw(st.integers(0, 10 ** 6))
+            c["opts"] = {"threshold": draw(st.sampled_from([0, 0, 3, 10, 20, 50])), "nopriors": draw(st.booleans()),
+                         "only_snvs": draw(st.integers(0, 4)) == 0, "constant": draw(st.sampled_from([0.0, 0.0, 0.1]))}
+            return c
+        return case()
+
+    def run(self, case, ctx):
+        import contextlib, io as _io
+        import pysam
+        from vlib import genome as G, pipeline as P
+        from whatshap.cli.genotype import run_genotype
+        from props.c16_determinism import noisy_reads
+        d = ctx.tmp()
+        reads = noisy_reads(case, G.render_specs(case, case["read_specs"]), case["noise"])
+        if not reads:
+            return
+        ref = G.write_fasta(case["contigs"], os.path.join(d, "ref.fa"))
+        vcf = G.write_vcf(case, os.path.join(d, "in.vcf"))
+        bam = G.write_bam(case, reads, os.path.join(d, "reads.bam"))
+        out = os.path.join(d, "out.vcf")
+        o = case["opts"]
+        kw = {}
+        if case["ped"]:
+            kw["ped"] = G.write_ped([["father", "mother", "child"]], os.path.join(d, "fam.ped"))
+        buf = _io.StringIO()
+        with contextlib.redirect_stdout(buf), contextlib.redirect_stderr(buf):
+            with open(out, "w") as fo:
+                run_genotype([bam], vcf, reference=ref, output=fo, gt_qual_threshold=o["threshold"], nopriors=o["nopriors"],
+                             only_snvs=o["only_snvs"], constant=o["constant"], write_command_line_header=False, **kw)
+        P.check_readable(out, "genotype")
+        gt_prob = 1.0 - 10 ** (-o["threshold"] / 10.0)
+        nt = False
+        with pysam.VariantFile(out) as vf:
+            for rec in vf:
+                for s, call in rec.samples.items():
+                    gl = call["GL"] if "GL" in rec.format.keys() else None
+                    gt = call["GT"]
+                    gq = call["GQ"] if "GQ" in rec.format.keys() else None
+                    where = "%s:%d sample %s" % (rec.chrom, rec.pos, s)
+                    if gl is None or any(x is None for x in gl):
+                        ctx.violation("cli:gl-missing", "%s has no GL (%r)" % (where, gl))
+                        continue
+                    p = [10 ** x for x in gl]
+                    if not abs(sum(p) - 1) <= 1e-4:
+                        ctx.violation("cli:gl-sum", "%s: sum 10^GL = %r (GL %r)" % (where, sum(p), gl))
+                        continue
+                    ctx.unit("calls-judged")
+                    called = gt is not None and all(a is not None for a in gt) and len(gt) == 2
+                    if len(p) != 3:
+                        if called:
+                            ctx.violation("cli:gt-on-multiallelic", "%s: GT %r with %d likelihoods" % (where, gt, len(p)))
+                        continue
+                    srt = sorted(p, reverse=True)
+                    if srt[0] - srt[1] <= 1e-5 * max(srt[0], 1e-300) + 1e-12 or abs(srt[0] - gt_prob) <= 1e-5:
+                        ctx.label("inconclusive-near-tie")
+                    else:
+                        should = srt[0] > gt_prob
+                        if not should:
+                            nt = True
+                        if called != should:
+                            ctx.violation("cli:gt-call", "%s: GT %r, likelihoods %r, threshold probability %r" % (where, gt, p, gt_prob))
+                        elif called and p[gt[0] + gt[1]] != srt[0]:
+                            ctx.violation("cli:gt-argmax", "%s: GT %r is not the arg-max of %r" % (where, gt, p))
+                    if called:
+                        idx = gt[0] + gt[1]
+                        rest = sum(p[j] for j in range(3) if j != idx)
+                        want = min(round(-10.0 * math.log10(rest)), 10000) if rest > 0 else 10000
+                        if gq is None or abs(gq - want) > 1:
+                            # rest is computed from rounded GLs: allow the rounding boundary
+                            ctx.violation("cli:gq", "%s: GQ %r, expected %r from GL %r" % (where, gq, want, gl))
+                        if srt[0] < 0.99:
+                            nt = True
+                    elif gq is not None:
+                        ctx.violation("cli:gq-without-gt", "%s: GQ %r without GT" % (where, gq))
+        ctx.nontrivial(nt)
+        ctx.label("ped" if case["ped"] else "unrelated")
+        ctx.label("nopriors" if o["nopriors"] else "priors")
+
+
+PARTS = [CorePart(), DeepPart(), WriterPart(), CliPart()]
